@@ -26,7 +26,7 @@ RULE = ("per observe expression: every history up to the depth bound over "
 EXPLANATION = ("direct exploration; reference = from-scratch interpreter of "
                "the expression over the live object graph (reads __dict__ "
                "only)")
-BOUNDS = {"quick": "18 expressions, depth 4 with dedup (graph shape + "
+BOUNDS = {"quick": "21 expressions, depth 4 with dedup (graph shape + "
                    "notifier fingerprint), late registration at depth<=3",
           "thorough": "depth 5 with dedup, late registration at depth<=4"}
 ASSUMPTIONS = ["dispatch='same'", "pool of 3 objects + materialised lazy "
@@ -64,6 +64,12 @@ EXPRS = {
     "+tag": ("+tag", [G.P("+tag")], ["extra", "child"]),
     "child.+tag": ("child.+tag", [G.P("child.+tag")], ["extra", "child"]),
     "+link.value": ("+link.value", [G.P("+link.value")], ["child", "xlink"]),
+    "+coll.items.value": ("+coll.items.value", [G.P("+coll.items.value")],
+                          ["kids", "kmap"]),
+    "rows.items.items.value": ("rows.items.items.value",
+                               [G.P("rows.items.items.value")], ["rows"]),
+    "child.value+readd": ("child.value", [G.P("child.value")],
+                          ["child", "readd"]),
     "child.*": ("child.*", [G.P("child.*")], ["child", "extra"]),
     "*": ("*", [G.P("*")], ["extra", "child"]),
     "kids.items": ("kids.items", [G.P("kids.items")], ["kids"]),
@@ -173,7 +179,8 @@ def check_step(ctx, w, ev, hist, tag):
                 % (ev[0], len(calls), exp))
         elif exp:
             c = calls[0]
-            kind = {"kids": "list", "kmap": "dict", "kset": "set"}[ev[0][:4]]
+            kind = {"kids": "list", "kmap": "dict", "kset": "set",
+                    "rows": "list"}[ev[0][:4]]
             ctx.outcome("step-%s-event" % kind)
             ctx.nontriv((ename, "step", ev))
             if c[0] != kind or c[1] != id(subject[1]):
@@ -284,7 +291,13 @@ def run_history(ctx, ename, hist, late):
     return ok, key
 
 
+#: expressions with large menus: events on the root only, one level less
+ROOT_ONLY = {"+coll.items.value"}
+
+
 def menu(ename):
+    if ename in ROOT_ONLY:
+        return G.event_menu(EXPRS[ename][2], idx=(0,))
     return G.event_menu(EXPRS[ename][2])
 
 
@@ -303,6 +316,9 @@ def run_shard(ctx, shard, tier):
     evs = menu(ename)
     depth = 4 if tier == "quick" else 5
     late_depth = 3 if tier == "quick" else 4
+    if ename in ROOT_ONLY:
+        depth -= 1
+        late_depth -= 1
     # level 1 is split between the chunks; deeper levels follow from it
     firsts = evs[shard["chunk"]::shard["of"]]
     frontier = [[]]
